@@ -78,8 +78,15 @@ def _run(scene, prms):
     return out, snap, n_warn
 
 
-def run_history(scene, ops, sandbox, stats=None, live=None):
-    """Returns a violation dict or None."""
+def _pristine_outcome(scene, effective):
+    """Outcome of the scene with every effective value passed explicitly per call (evaluated by
+    the zygote: a process that has run nothing before)."""
+    return _run(scene, effective)[0]
+
+
+def run_history(scene, ops, sandbox, stats=None, live=None, pristine=None, check_every=3):
+    """Returns a violation dict or None. `pristine(scene, effective)` evaluates one run in a
+    process without history; every check_every-th run is compared with it."""
     import ampycloud
     from ampycloud import dynamic
     from ampycloud.errors import AmpycloudWarning
@@ -92,6 +99,7 @@ def run_history(scene, ops, sandbox, stats=None, live=None):
     model = defaults()
     seen = {}
     last_out = {}
+    n_runs = [0]
     try:
         for pos, op in enumerate(ops):
             kind = op[0]
@@ -156,9 +164,9 @@ def run_history(scene, ops, sandbox, stats=None, live=None):
                 bump('route.yaml_full_file')
             elif kind == 'percall':
                 assign = _insert_unknown(_assign(op[1]), op[2])
-                pristine = copy.deepcopy(assign)
+                assign0 = copy.deepcopy(assign)
                 n_unknown = len(unknown_paths(model, assign))
-                effective = model_snapshot(model, pristine)
+                effective = model_snapshot(model, assign0)
                 ran = _run(scene, assign)
                 bump('route.percall')
                 bump('fault.unknown_keys', n_unknown)
@@ -196,6 +204,15 @@ def run_history(scene, ops, sandbox, stats=None, live=None):
                     last_out[op[3]] = out
                 first = seen.setdefault(key, (out, kind, pos))
                 bump('observations')
+                n_runs[0] += 1
+                if pristine is not None and snap is not None and first[2] == pos \
+                        and n_runs[0] % check_every == 0:
+                    want = pristine(scene, copy.deepcopy(effective))
+                    bump('probe.run_compared_with_history_free_process')
+                    if want != out:
+                        return {'clause': 'outcome-differs-from-history-free-process', 'op': kind,
+                                'pos': pos, 'detail': f'here {out}, in a process without '
+                                                      f'history {want}'}
                 if first[0] != out:
                     return {'clause': 'outcome-differs-for-equal-effective-values', 'op': kind,
                             'pos': pos,
@@ -227,16 +244,20 @@ def shrink(vio, evaluate):
     case = vio['case']
     case['ops'] = [o for o in case['ops'] if o[0] != 'live_probe']
     case['prelude'] = [[o for o in h if o[0] != 'live_probe'] for h in case.get('prelude', [])]
-    return shrink_history(vio, evaluate, max_runs=70)
+    want = vio['clause']
+    return shrink_history(vio, evaluate, max_runs=70,
+                          same=lambda v: v is not None and v['clause'] == want)
 
 
 def replay(case):
+    zyg = kernel.Zygote(_pristine_outcome)       # before anything runs in this process
     sandbox = _sandbox()
     try:
         for ops in case.get('prelude', []):       # earlier histories of the same process
             run_history(case['scene'], ops, sandbox)
-        vio = run_history(case['scene'], case['ops'], sandbox)
+        vio = run_history(case['scene'], case['ops'], sandbox, pristine=zyg, check_every=1)
     finally:
+        zyg.close()
         shutil.rmtree(sandbox, ignore_errors=True)
     return _package(case['scene'], case['ops'], vio, case.get('prelude', [])) if vio else None
 
@@ -359,6 +380,7 @@ def execute(run):
     classes = prmspace.LIVE_CLASSES.get(focus, prmspace.CLOUDY)
     sandbox = _sandbox()
     prelude = []
+    zyg = kernel.Zygote(_pristine_outcome)       # before anything runs in this process
     try:
         for h in range(2):
             scene = scenes.gen_scene(rng_scene, rng_scene.choice(classes))
@@ -369,7 +391,7 @@ def execute(run):
                 ops += gen_block(rng_ops, focus if b == 0 else None, dflt, f'b{b}', base)
                 if rng_ops.random() < 0.6:
                     ops += gen_extras(rng_ops, dflt)
-            vio = run_history(scene, ops, sandbox, stats, live)
+            vio = run_history(scene, ops, sandbox, stats, live, pristine=zyg)
             out['n_eval'] += 1
             out['steps'] += len(ops)
             out['log'].append([kernel.sha(ops), repr(vio)])
@@ -384,6 +406,7 @@ def execute(run):
                 break
             prelude.append(ops)
     finally:
+        zyg.close()
         shutil.rmtree(sandbox, ignore_errors=True)
     for leaf, n in live.items():
         stats[f'live.{leaf}'] = n
